@@ -112,18 +112,30 @@ proofs/BookFacts.vos proofs/BookFacts.vok proofs/BookFacts.required_vos: proofs/
 proofs/BookSweep.vo proofs/BookSweep.glob proofs/BookSweep.v.beautified proofs/BookSweep.required_vo: proofs/BookSweep.v base/Bits.vo base/Types.vo spec/Rules.vo model/Book.vo
 proofs/BookSweep.vio: proofs/BookSweep.v base/Bits.vio base/Types.vio spec/Rules.vio model/Book.vio
 proofs/BookSweep.vos proofs/BookSweep.vok proofs/BookSweep.required_vos: proofs/BookSweep.v base/Bits.vos base/Types.vos spec/Rules.vos model/Book.vos
+proofs/BotFacts.vo proofs/BotFacts.glob proofs/BotFacts.v.beautified proofs/BotFacts.required_vo: proofs/BotFacts.v base/Types.vo model/Board.vo model/Search.vo proofs/ZobristFacts.vo
+proofs/BotFacts.vio: proofs/BotFacts.v base/Types.vio model/Board.vio model/Search.vio proofs/ZobristFacts.vio
+proofs/BotFacts.vos proofs/BotFacts.vok proofs/BotFacts.required_vos: proofs/BotFacts.v base/Types.vos model/Board.vos model/Search.vos proofs/ZobristFacts.vos
+proofs/BridgeFacts.vo proofs/BridgeFacts.glob proofs/BridgeFacts.v.beautified proofs/BridgeFacts.required_vo: proofs/BridgeFacts.v base/Bits.vo base/Types.vo base/BitBoard.vo base/Sweep.vo geom/Geometry.vo model/Board.vo spec/Rules.vo proofs/BitsFacts.vo proofs/BitBoardFacts.vo
+proofs/BridgeFacts.vio: proofs/BridgeFacts.v base/Bits.vio base/Types.vio base/BitBoard.vio base/Sweep.vio geom/Geometry.vio model/Board.vio spec/Rules.vio proofs/BitsFacts.vio proofs/BitBoardFacts.vio
+proofs/BridgeFacts.vos proofs/BridgeFacts.vok proofs/BridgeFacts.required_vos: proofs/BridgeFacts.v base/Bits.vos base/Types.vos base/BitBoard.vos base/Sweep.vos geom/Geometry.vos model/Board.vos spec/Rules.vos proofs/BitsFacts.vos proofs/BitBoardFacts.vos
 proofs/CoreFacts.vo proofs/CoreFacts.glob proofs/CoreFacts.v.beautified proofs/CoreFacts.required_vo: proofs/CoreFacts.v base/Bits.vo base/Types.vo base/BitBoard.vo model/Board.vo model/MoveGen.vo model/Apply.vo model/Fen.vo spec/Rules.vo
 proofs/CoreFacts.vio: proofs/CoreFacts.v base/Bits.vio base/Types.vio base/BitBoard.vio model/Board.vio model/MoveGen.vio model/Apply.vio model/Fen.vio spec/Rules.vio
 proofs/CoreFacts.vos proofs/CoreFacts.vok proofs/CoreFacts.required_vos: proofs/CoreFacts.v base/Bits.vos base/Types.vos base/BitBoard.vos model/Board.vos model/MoveGen.vos model/Apply.vos model/Fen.vos spec/Rules.vos
 proofs/FenFacts.vo proofs/FenFacts.glob proofs/FenFacts.v.beautified proofs/FenFacts.required_vo: proofs/FenFacts.v base/Bits.vo base/Types.vo base/BitBoard.vo geom/Geometry.vo model/Board.vo model/Fen.vo proofs/BitsFacts.vo
 proofs/FenFacts.vio: proofs/FenFacts.v base/Bits.vio base/Types.vio base/BitBoard.vio geom/Geometry.vio model/Board.vio model/Fen.vio proofs/BitsFacts.vio
 proofs/FenFacts.vos proofs/FenFacts.vok proofs/FenFacts.required_vos: proofs/FenFacts.v base/Bits.vos base/Types.vos base/BitBoard.vos geom/Geometry.vos model/Board.vos model/Fen.vos proofs/BitsFacts.vos
+proofs/FenRoundTrip.vo proofs/FenRoundTrip.glob proofs/FenRoundTrip.v.beautified proofs/FenRoundTrip.required_vo: proofs/FenRoundTrip.v base/Bits.vo base/Types.vo base/BitBoard.vo geom/Geometry.vo model/Board.vo model/Fen.vo proofs/BitsFacts.vo proofs/BitBoardFacts.vo proofs/FenFacts.vo
+proofs/FenRoundTrip.vio: proofs/FenRoundTrip.v base/Bits.vio base/Types.vio base/BitBoard.vio geom/Geometry.vio model/Board.vio model/Fen.vio proofs/BitsFacts.vio proofs/BitBoardFacts.vio proofs/FenFacts.vio
+proofs/FenRoundTrip.vos proofs/FenRoundTrip.vok proofs/FenRoundTrip.required_vos: proofs/FenRoundTrip.v base/Bits.vos base/Types.vos base/BitBoard.vos geom/Geometry.vos model/Board.vos model/Fen.vos proofs/BitsFacts.vos proofs/BitBoardFacts.vos proofs/FenFacts.vos
 proofs/GameTreeFacts.vo proofs/GameTreeFacts.glob proofs/GameTreeFacts.v.beautified proofs/GameTreeFacts.required_vo: proofs/GameTreeFacts.v model/Score.vo proofs/ScoreOrder.vo spec/GameTree.vo
 proofs/GameTreeFacts.vio: proofs/GameTreeFacts.v model/Score.vio proofs/ScoreOrder.vio spec/GameTree.vio
 proofs/GameTreeFacts.vos proofs/GameTreeFacts.vok proofs/GameTreeFacts.required_vos: proofs/GameTreeFacts.v model/Score.vos proofs/ScoreOrder.vos spec/GameTree.vos
 proofs/GeomSweeps.vo proofs/GeomSweeps.glob proofs/GeomSweeps.v.beautified proofs/GeomSweeps.required_vo: proofs/GeomSweeps.v base/Bits.vo base/Types.vo base/BitBoard.vo base/Sweep.vo geom/Geometry.vo geom/Lookup.vo geom/GenFns.vo
 proofs/GeomSweeps.vio: proofs/GeomSweeps.v base/Bits.vio base/Types.vio base/BitBoard.vio base/Sweep.vio geom/Geometry.vio geom/Lookup.vio geom/GenFns.vio
 proofs/GeomSweeps.vos proofs/GeomSweeps.vok proofs/GeomSweeps.required_vos: proofs/GeomSweeps.v base/Bits.vos base/Types.vos base/BitBoard.vos base/Sweep.vos geom/Geometry.vos geom/Lookup.vos geom/GenFns.vos
+proofs/HashFacts.vo proofs/HashFacts.glob proofs/HashFacts.v.beautified proofs/HashFacts.required_vo: proofs/HashFacts.v base/Bits.vo base/Types.vo base/BitBoard.vo geom/Geometry.vo model/Board.vo model/Fen.vo model/MoveGen.vo model/Apply.vo proofs/BitsFacts.vo proofs/BitBoardFacts.vo proofs/ZobristFacts.vo proofs/FenFacts.vo
+proofs/HashFacts.vio: proofs/HashFacts.v base/Bits.vio base/Types.vio base/BitBoard.vio geom/Geometry.vio model/Board.vio model/Fen.vio model/MoveGen.vio model/Apply.vio proofs/BitsFacts.vio proofs/BitBoardFacts.vio proofs/ZobristFacts.vio proofs/FenFacts.vio
+proofs/HashFacts.vos proofs/HashFacts.vok proofs/HashFacts.required_vos: proofs/HashFacts.v base/Bits.vos base/Types.vos base/BitBoard.vos geom/Geometry.vos model/Board.vos model/Fen.vos model/MoveGen.vos model/Apply.vos proofs/BitsFacts.vos proofs/BitBoardFacts.vos proofs/ZobristFacts.vos proofs/FenFacts.vos
 proofs/IterFacts.vo proofs/IterFacts.glob proofs/IterFacts.v.beautified proofs/IterFacts.required_vo: proofs/IterFacts.v spec/Rules.vo base/Bits.vo base/Types.vo base/BitBoard.vo geom/Geometry.vo model/Board.vo model/MoveGen.vo proofs/BitsFacts.vo proofs/BitBoardFacts.vo spec/IterSpec.vo
 proofs/IterFacts.vio: proofs/IterFacts.v spec/Rules.vio base/Bits.vio base/Types.vio base/BitBoard.vio geom/Geometry.vio model/Board.vio model/MoveGen.vio proofs/BitsFacts.vio proofs/BitBoardFacts.vio spec/IterSpec.vio
 proofs/IterFacts.vos proofs/IterFacts.vok proofs/IterFacts.required_vos: proofs/IterFacts.v spec/Rules.vos base/Bits.vos base/Types.vos base/BitBoard.vos geom/Geometry.vos model/Board.vos model/MoveGen.vos proofs/BitsFacts.vos proofs/BitBoardFacts.vos spec/IterSpec.vos
@@ -133,12 +145,21 @@ proofs/MagicSweep.vos proofs/MagicSweep.vok proofs/MagicSweep.required_vos: proo
 proofs/PawnFacts.vo proofs/PawnFacts.glob proofs/PawnFacts.v.beautified proofs/PawnFacts.required_vo: proofs/PawnFacts.v base/Bits.vo base/Types.vo base/BitBoard.vo base/Sweep.vo geom/Geometry.vo geom/Lookup.vo proofs/BitsFacts.vo proofs/BitBoardFacts.vo proofs/GeomSweeps.vo
 proofs/PawnFacts.vio: proofs/PawnFacts.v base/Bits.vio base/Types.vio base/BitBoard.vio base/Sweep.vio geom/Geometry.vio geom/Lookup.vio proofs/BitsFacts.vio proofs/BitBoardFacts.vio proofs/GeomSweeps.vio
 proofs/PawnFacts.vos proofs/PawnFacts.vok proofs/PawnFacts.required_vos: proofs/PawnFacts.v base/Bits.vos base/Types.vos base/BitBoard.vos base/Sweep.vos geom/Geometry.vos geom/Lookup.vos proofs/BitsFacts.vos proofs/BitBoardFacts.vos proofs/GeomSweeps.vos
+proofs/PlayableFacts.vo proofs/PlayableFacts.glob proofs/PlayableFacts.v.beautified proofs/PlayableFacts.required_vo: proofs/PlayableFacts.v base/Bits.vo base/Types.vo base/BitBoard.vo base/Sweep.vo geom/Geometry.vo model/Board.vo spec/Rules.vo model/Fen.vo proofs/FenFacts.vo proofs/BitsFacts.vo proofs/BitBoardFacts.vo proofs/BridgeFacts.vo
+proofs/PlayableFacts.vio: proofs/PlayableFacts.v base/Bits.vio base/Types.vio base/BitBoard.vio base/Sweep.vio geom/Geometry.vio model/Board.vio spec/Rules.vio model/Fen.vio proofs/FenFacts.vio proofs/BitsFacts.vio proofs/BitBoardFacts.vio proofs/BridgeFacts.vio
+proofs/PlayableFacts.vos proofs/PlayableFacts.vok proofs/PlayableFacts.required_vos: proofs/PlayableFacts.v base/Bits.vos base/Types.vos base/BitBoard.vos base/Sweep.vos geom/Geometry.vos model/Board.vos spec/Rules.vos model/Fen.vos proofs/FenFacts.vos proofs/BitsFacts.vos proofs/BitBoardFacts.vos proofs/BridgeFacts.vos
 proofs/ScoreOrder.vo proofs/ScoreOrder.glob proofs/ScoreOrder.v.beautified proofs/ScoreOrder.required_vo: proofs/ScoreOrder.v model/Score.vo
 proofs/ScoreOrder.vio: proofs/ScoreOrder.v model/Score.vio
 proofs/ScoreOrder.vos proofs/ScoreOrder.vok proofs/ScoreOrder.required_vos: proofs/ScoreOrder.v model/Score.vos
+proofs/SearchFacts.vo proofs/SearchFacts.glob proofs/SearchFacts.v.beautified proofs/SearchFacts.required_vo: proofs/SearchFacts.v base/Bits.vo base/Types.vo base/BitBoard.vo model/Score.vo model/Board.vo model/MoveGen.vo model/Apply.vo model/Search.vo proofs/BitsFacts.vo proofs/BitBoardFacts.vo spec/IterSpec.vo proofs/IterFacts.vo proofs/ScoreOrder.vo proofs/SearchOrder.vo
+proofs/SearchFacts.vio: proofs/SearchFacts.v base/Bits.vio base/Types.vio base/BitBoard.vio model/Score.vio model/Board.vio model/MoveGen.vio model/Apply.vio model/Search.vio proofs/BitsFacts.vio proofs/BitBoardFacts.vio spec/IterSpec.vio proofs/IterFacts.vio proofs/ScoreOrder.vio proofs/SearchOrder.vio
+proofs/SearchFacts.vos proofs/SearchFacts.vok proofs/SearchFacts.required_vos: proofs/SearchFacts.v base/Bits.vos base/Types.vos base/BitBoard.vos model/Score.vos model/Board.vos model/MoveGen.vos model/Apply.vos model/Search.vos proofs/BitsFacts.vos proofs/BitBoardFacts.vos spec/IterSpec.vos proofs/IterFacts.vos proofs/ScoreOrder.vos proofs/SearchOrder.vos
 proofs/SearchOrder.vo proofs/SearchOrder.glob proofs/SearchOrder.v.beautified proofs/SearchOrder.required_vo: proofs/SearchOrder.v base/Types.vo model/Score.vo proofs/ScoreOrder.vo model/Search.vo
 proofs/SearchOrder.vio: proofs/SearchOrder.v base/Types.vio model/Score.vio proofs/ScoreOrder.vio model/Search.vio
 proofs/SearchOrder.vos proofs/SearchOrder.vok proofs/SearchOrder.required_vos: proofs/SearchOrder.v base/Types.vos model/Score.vos proofs/ScoreOrder.vos model/Search.vos
+proofs/SiteFacts.vo proofs/SiteFacts.glob proofs/SiteFacts.v.beautified proofs/SiteFacts.required_vo: proofs/SiteFacts.v spec/Rules.vo base/Bits.vo base/Types.vo base/BitBoard.vo base/Sweep.vo geom/Geometry.vo model/Board.vo model/MoveGen.vo model/Apply.vo proofs/BitsFacts.vo proofs/BitBoardFacts.vo spec/IterSpec.vo proofs/IterFacts.vo
+proofs/SiteFacts.vio: proofs/SiteFacts.v spec/Rules.vio base/Bits.vio base/Types.vio base/BitBoard.vio base/Sweep.vio geom/Geometry.vio model/Board.vio model/MoveGen.vio model/Apply.vio proofs/BitsFacts.vio proofs/BitBoardFacts.vio spec/IterSpec.vio proofs/IterFacts.vio
+proofs/SiteFacts.vos proofs/SiteFacts.vok proofs/SiteFacts.required_vos: proofs/SiteFacts.v spec/Rules.vos base/Bits.vos base/Types.vos base/BitBoard.vos base/Sweep.vos geom/Geometry.vos model/Board.vos model/MoveGen.vos model/Apply.vos proofs/BitsFacts.vos proofs/BitBoardFacts.vos spec/IterSpec.vos proofs/IterFacts.vos
 proofs/TextFacts.vo proofs/TextFacts.glob proofs/TextFacts.v.beautified proofs/TextFacts.required_vo: proofs/TextFacts.v model/Text.vo
 proofs/TextFacts.vio: proofs/TextFacts.v model/Text.vio
 proofs/TextFacts.vos proofs/TextFacts.vok proofs/TextFacts.required_vos: proofs/TextFacts.v model/Text.vos
@@ -154,21 +175,21 @@ props/C01.vos props/C01.vok props/C01.required_vos: props/C01.v base/Bits.vos ba
 props/C02.vo props/C02.glob props/C02.v.beautified props/C02.required_vo: props/C02.v base/Bits.vo base/Types.vo model/Board.vo model/MoveGen.vo model/Apply.vo spec/Rules.vo proofs/CoreFacts.vo
 props/C02.vio: props/C02.v base/Bits.vio base/Types.vio model/Board.vio model/MoveGen.vio model/Apply.vio spec/Rules.vio proofs/CoreFacts.vio
 props/C02.vos props/C02.vok props/C02.required_vos: props/C02.v base/Bits.vos base/Types.vos model/Board.vos model/MoveGen.vos model/Apply.vos spec/Rules.vos proofs/CoreFacts.vos
-props/C03.vo props/C03.glob props/C03.v.beautified props/C03.required_vo: props/C03.v base/Bits.vo base/Types.vo model/Board.vo model/MoveGen.vo model/Apply.vo model/Fen.vo spec/Rules.vo proofs/CoreFacts.vo
-props/C03.vio: props/C03.v base/Bits.vio base/Types.vio model/Board.vio model/MoveGen.vio model/Apply.vio model/Fen.vio spec/Rules.vio proofs/CoreFacts.vio
-props/C03.vos props/C03.vok props/C03.required_vos: props/C03.v base/Bits.vos base/Types.vos model/Board.vos model/MoveGen.vos model/Apply.vos model/Fen.vos spec/Rules.vos proofs/CoreFacts.vos
-props/C04.vo props/C04.glob props/C04.v.beautified props/C04.required_vo: props/C04.v base/Bits.vo base/Types.vo gen/T_zobrist.vo model/Board.vo model/MoveGen.vo model/Apply.vo model/Fen.vo proofs/ZobristFacts.vo
-props/C04.vio: props/C04.v base/Bits.vio base/Types.vio gen/T_zobrist.vio model/Board.vio model/MoveGen.vio model/Apply.vio model/Fen.vio proofs/ZobristFacts.vio
-props/C04.vos props/C04.vok props/C04.required_vos: props/C04.v base/Bits.vos base/Types.vos gen/T_zobrist.vos model/Board.vos model/MoveGen.vos model/Apply.vos model/Fen.vos proofs/ZobristFacts.vos
-props/C05.vo props/C05.glob props/C05.v.beautified props/C05.required_vo: props/C05.v base/Bits.vo base/Types.vo base/BitBoard.vo model/Board.vo model/Fen.vo spec/Rules.vo proofs/FenFacts.vo proofs/CoreFacts.vo
-props/C05.vio: props/C05.v base/Bits.vio base/Types.vio base/BitBoard.vio model/Board.vio model/Fen.vio spec/Rules.vio proofs/FenFacts.vio proofs/CoreFacts.vio
-props/C05.vos props/C05.vok props/C05.required_vos: props/C05.v base/Bits.vos base/Types.vos base/BitBoard.vos model/Board.vos model/Fen.vos spec/Rules.vos proofs/FenFacts.vos proofs/CoreFacts.vos
-props/C06.vo props/C06.glob props/C06.v.beautified props/C06.required_vo: props/C06.v base/Bits.vo base/Types.vo base/BitBoard.vo model/Board.vo model/Fen.vo spec/Rules.vo proofs/FenFacts.vo
-props/C06.vio: props/C06.v base/Bits.vio base/Types.vio base/BitBoard.vio model/Board.vio model/Fen.vio spec/Rules.vio proofs/FenFacts.vio
-props/C06.vos props/C06.vok props/C06.required_vos: props/C06.v base/Bits.vos base/Types.vos base/BitBoard.vos model/Board.vos model/Fen.vos spec/Rules.vos proofs/FenFacts.vos
-props/C07.vo props/C07.glob props/C07.v.beautified props/C07.required_vo: props/C07.v base/Bits.vo base/Types.vo base/BitBoard.vo geom/Geometry.vo geom/Lookup.vo model/Board.vo model/MoveGen.vo model/Fen.vo model/Book.vo gen/T_rook_moves.vo gen/T_bishop_moves.vo gen/T_book.vo spec/IterSpec.vo proofs/MagicSweep.vo proofs/BookFacts.vo proofs/FenFacts.vo proofs/IterFacts.vo
-props/C07.vio: props/C07.v base/Bits.vio base/Types.vio base/BitBoard.vio geom/Geometry.vio geom/Lookup.vio model/Board.vio model/MoveGen.vio model/Fen.vio model/Book.vio gen/T_rook_moves.vio gen/T_bishop_moves.vio gen/T_book.vio spec/IterSpec.vio proofs/MagicSweep.vio proofs/BookFacts.vio proofs/FenFacts.vio proofs/IterFacts.vio
-props/C07.vos props/C07.vok props/C07.required_vos: props/C07.v base/Bits.vos base/Types.vos base/BitBoard.vos geom/Geometry.vos geom/Lookup.vos model/Board.vos model/MoveGen.vos model/Fen.vos model/Book.vos gen/T_rook_moves.vos gen/T_bishop_moves.vos gen/T_book.vos spec/IterSpec.vos proofs/MagicSweep.vos proofs/BookFacts.vos proofs/FenFacts.vos proofs/IterFacts.vos
+props/C03.vo props/C03.glob props/C03.v.beautified props/C03.required_vo: props/C03.v base/Bits.vo base/Types.vo base/BitBoard.vo model/Board.vo model/MoveGen.vo model/Apply.vo model/Fen.vo spec/Rules.vo proofs/CoreFacts.vo proofs/BridgeFacts.vo proofs/PlayableFacts.vo
+props/C03.vio: props/C03.v base/Bits.vio base/Types.vio base/BitBoard.vio model/Board.vio model/MoveGen.vio model/Apply.vio model/Fen.vio spec/Rules.vio proofs/CoreFacts.vio proofs/BridgeFacts.vio proofs/PlayableFacts.vio
+props/C03.vos props/C03.vok props/C03.required_vos: props/C03.v base/Bits.vos base/Types.vos base/BitBoard.vos model/Board.vos model/MoveGen.vos model/Apply.vos model/Fen.vos spec/Rules.vos proofs/CoreFacts.vos proofs/BridgeFacts.vos proofs/PlayableFacts.vos
+props/C04.vo props/C04.glob props/C04.v.beautified props/C04.required_vo: props/C04.v base/Bits.vo base/Types.vo gen/T_zobrist.vo base/BitBoard.vo model/Board.vo model/MoveGen.vo model/Apply.vo model/Fen.vo proofs/ZobristFacts.vo proofs/HashFacts.vo
+props/C04.vio: props/C04.v base/Bits.vio base/Types.vio gen/T_zobrist.vio base/BitBoard.vio model/Board.vio model/MoveGen.vio model/Apply.vio model/Fen.vio proofs/ZobristFacts.vio proofs/HashFacts.vio
+props/C04.vos props/C04.vok props/C04.required_vos: props/C04.v base/Bits.vos base/Types.vos gen/T_zobrist.vos base/BitBoard.vos model/Board.vos model/MoveGen.vos model/Apply.vos model/Fen.vos proofs/ZobristFacts.vos proofs/HashFacts.vos
+props/C05.vo props/C05.glob props/C05.v.beautified props/C05.required_vo: props/C05.v base/Bits.vo base/Types.vo base/BitBoard.vo model/Board.vo model/Fen.vo spec/Rules.vo proofs/FenFacts.vo proofs/CoreFacts.vo proofs/FenRoundTrip.vo
+props/C05.vio: props/C05.v base/Bits.vio base/Types.vio base/BitBoard.vio model/Board.vio model/Fen.vio spec/Rules.vio proofs/FenFacts.vio proofs/CoreFacts.vio proofs/FenRoundTrip.vio
+props/C05.vos props/C05.vok props/C05.required_vos: props/C05.v base/Bits.vos base/Types.vos base/BitBoard.vos model/Board.vos model/Fen.vos spec/Rules.vos proofs/FenFacts.vos proofs/CoreFacts.vos proofs/FenRoundTrip.vos
+props/C06.vo props/C06.glob props/C06.v.beautified props/C06.required_vo: props/C06.v base/Bits.vo base/Types.vo base/BitBoard.vo model/Board.vo model/Fen.vo spec/Rules.vo proofs/FenFacts.vo proofs/BridgeFacts.vo proofs/PlayableFacts.vo proofs/FenRoundTrip.vo
+props/C06.vio: props/C06.v base/Bits.vio base/Types.vio base/BitBoard.vio model/Board.vio model/Fen.vio spec/Rules.vio proofs/FenFacts.vio proofs/BridgeFacts.vio proofs/PlayableFacts.vio proofs/FenRoundTrip.vio
+props/C06.vos props/C06.vok props/C06.required_vos: props/C06.v base/Bits.vos base/Types.vos base/BitBoard.vos model/Board.vos model/Fen.vos spec/Rules.vos proofs/FenFacts.vos proofs/BridgeFacts.vos proofs/PlayableFacts.vos proofs/FenRoundTrip.vos
+props/C07.vo props/C07.glob props/C07.v.beautified props/C07.required_vo: props/C07.v base/Bits.vo base/Types.vo base/BitBoard.vo geom/Geometry.vo geom/Lookup.vo model/Board.vo model/MoveGen.vo model/Fen.vo model/Book.vo gen/T_rook_moves.vo gen/T_bishop_moves.vo gen/T_book.vo spec/IterSpec.vo proofs/MagicSweep.vo proofs/BookFacts.vo proofs/FenFacts.vo proofs/IterFacts.vo model/Apply.vo proofs/SiteFacts.vo
+props/C07.vio: props/C07.v base/Bits.vio base/Types.vio base/BitBoard.vio geom/Geometry.vio geom/Lookup.vio model/Board.vio model/MoveGen.vio model/Fen.vio model/Book.vio gen/T_rook_moves.vio gen/T_bishop_moves.vio gen/T_book.vio spec/IterSpec.vio proofs/MagicSweep.vio proofs/BookFacts.vio proofs/FenFacts.vio proofs/IterFacts.vio model/Apply.vio proofs/SiteFacts.vio
+props/C07.vos props/C07.vok props/C07.required_vos: props/C07.v base/Bits.vos base/Types.vos base/BitBoard.vos geom/Geometry.vos geom/Lookup.vos model/Board.vos model/MoveGen.vos model/Fen.vos model/Book.vos gen/T_rook_moves.vos gen/T_bishop_moves.vos gen/T_book.vos spec/IterSpec.vos proofs/MagicSweep.vos proofs/BookFacts.vos proofs/FenFacts.vos proofs/IterFacts.vos model/Apply.vos proofs/SiteFacts.vos
 props/C08.vo props/C08.glob props/C08.v.beautified props/C08.required_vo: props/C08.v base/Bits.vo base/Types.vo geom/Geometry.vo geom/Lookup.vo proofs/MagicSweep.vo gen/T_rook_moves.vo gen/T_bishop_moves.vo
 props/C08.vio: props/C08.v base/Bits.vio base/Types.vio geom/Geometry.vio geom/Lookup.vio proofs/MagicSweep.vio gen/T_rook_moves.vio gen/T_bishop_moves.vio
 props/C08.vos props/C08.vok props/C08.required_vos: props/C08.v base/Bits.vos base/Types.vos geom/Geometry.vos geom/Lookup.vos proofs/MagicSweep.vos gen/T_rook_moves.vos gen/T_bishop_moves.vos
@@ -178,21 +199,21 @@ props/C09.vos props/C09.vok props/C09.required_vos: props/C09.v base/Bits.vos ba
 props/C10.vo props/C10.glob props/C10.v.beautified props/C10.required_vo: props/C10.v base/Bits.vo base/Types.vo base/BitBoard.vo model/Board.vo model/MoveGen.vo spec/IterSpec.vo proofs/IterFacts.vo
 props/C10.vio: props/C10.v base/Bits.vio base/Types.vio base/BitBoard.vio model/Board.vio model/MoveGen.vio spec/IterSpec.vio proofs/IterFacts.vio
 props/C10.vos props/C10.vok props/C10.required_vos: props/C10.v base/Bits.vos base/Types.vos base/BitBoard.vos model/Board.vos model/MoveGen.vos spec/IterSpec.vos proofs/IterFacts.vos
-props/C11.vo props/C11.glob props/C11.v.beautified props/C11.required_vo: props/C11.v base/Types.vo model/Score.vo model/Board.vo model/MoveGen.vo model/Search.vo spec/Rules.vo spec/GameTree.vo proofs/GameTreeFacts.vo proofs/SearchOrder.vo
-props/C11.vio: props/C11.v base/Types.vio model/Score.vio model/Board.vio model/MoveGen.vio model/Search.vio spec/Rules.vio spec/GameTree.vio proofs/GameTreeFacts.vio proofs/SearchOrder.vio
-props/C11.vos props/C11.vok props/C11.required_vos: props/C11.v base/Types.vos model/Score.vos model/Board.vos model/MoveGen.vos model/Search.vos spec/Rules.vos spec/GameTree.vos proofs/GameTreeFacts.vos proofs/SearchOrder.vos
-props/C12.vo props/C12.glob props/C12.v.beautified props/C12.required_vo: props/C12.v base/Types.vo model/Score.vo model/Board.vo model/Search.vo spec/Rules.vo spec/GameTree.vo proofs/GameTreeFacts.vo proofs/SearchOrder.vo
-props/C12.vio: props/C12.v base/Types.vio model/Score.vio model/Board.vio model/Search.vio spec/Rules.vio spec/GameTree.vio proofs/GameTreeFacts.vio proofs/SearchOrder.vio
-props/C12.vos props/C12.vok props/C12.required_vos: props/C12.v base/Types.vos model/Score.vos model/Board.vos model/Search.vos spec/Rules.vos spec/GameTree.vos proofs/GameTreeFacts.vos proofs/SearchOrder.vos
+props/C11.vo props/C11.glob props/C11.v.beautified props/C11.required_vo: props/C11.v base/Types.vo model/Score.vo model/Board.vo model/MoveGen.vo model/Search.vo spec/Rules.vo spec/GameTree.vo proofs/GameTreeFacts.vo proofs/SearchOrder.vo spec/IterSpec.vo proofs/SearchFacts.vo
+props/C11.vio: props/C11.v base/Types.vio model/Score.vio model/Board.vio model/MoveGen.vio model/Search.vio spec/Rules.vio spec/GameTree.vio proofs/GameTreeFacts.vio proofs/SearchOrder.vio spec/IterSpec.vio proofs/SearchFacts.vio
+props/C11.vos props/C11.vok props/C11.required_vos: props/C11.v base/Types.vos model/Score.vos model/Board.vos model/MoveGen.vos model/Search.vos spec/Rules.vos spec/GameTree.vos proofs/GameTreeFacts.vos proofs/SearchOrder.vos spec/IterSpec.vos proofs/SearchFacts.vos
+props/C12.vo props/C12.glob props/C12.v.beautified props/C12.required_vo: props/C12.v base/Types.vo model/Score.vo model/Board.vo model/Search.vo spec/Rules.vo spec/GameTree.vo proofs/GameTreeFacts.vo proofs/SearchOrder.vo model/MoveGen.vo spec/IterSpec.vo proofs/SearchFacts.vo
+props/C12.vio: props/C12.v base/Types.vio model/Score.vio model/Board.vio model/Search.vio spec/Rules.vio spec/GameTree.vio proofs/GameTreeFacts.vio proofs/SearchOrder.vio model/MoveGen.vio spec/IterSpec.vio proofs/SearchFacts.vio
+props/C12.vos props/C12.vok props/C12.required_vos: props/C12.v base/Types.vos model/Score.vos model/Board.vos model/Search.vos spec/Rules.vos spec/GameTree.vos proofs/GameTreeFacts.vos proofs/SearchOrder.vos model/MoveGen.vos spec/IterSpec.vos proofs/SearchFacts.vos
 props/C13.vo props/C13.glob props/C13.v.beautified props/C13.required_vo: props/C13.v base/Types.vo model/Score.vo proofs/ScoreOrder.vo spec/GameTree.vo proofs/GameTreeFacts.vo
 props/C13.vio: props/C13.v base/Types.vio model/Score.vio proofs/ScoreOrder.vio spec/GameTree.vio proofs/GameTreeFacts.vio
 props/C13.vos props/C13.vok props/C13.required_vos: props/C13.v base/Types.vos model/Score.vos proofs/ScoreOrder.vos spec/GameTree.vos proofs/GameTreeFacts.vos
 props/C14.vo props/C14.glob props/C14.v.beautified props/C14.required_vo: props/C14.v model/Score.vo proofs/ScoreOrder.vo
 props/C14.vio: props/C14.v model/Score.vio proofs/ScoreOrder.vio
 props/C14.vos props/C14.vok props/C14.required_vos: props/C14.v model/Score.vos proofs/ScoreOrder.vos
-props/C15.vo props/C15.glob props/C15.v.beautified props/C15.required_vo: props/C15.v base/Types.vo model/Board.vo model/MoveGen.vo model/Apply.vo model/Search.vo model/Bot.vo
-props/C15.vio: props/C15.v base/Types.vio model/Board.vio model/MoveGen.vio model/Apply.vio model/Search.vio model/Bot.vio
-props/C15.vos props/C15.vok props/C15.required_vos: props/C15.v base/Types.vos model/Board.vos model/MoveGen.vos model/Apply.vos model/Search.vos model/Bot.vos
+props/C15.vo props/C15.glob props/C15.v.beautified props/C15.required_vo: props/C15.v base/Types.vo model/Board.vo model/MoveGen.vo model/Apply.vo model/Search.vo model/Bot.vo proofs/HashFacts.vo proofs/BotFacts.vo
+props/C15.vio: props/C15.v base/Types.vio model/Board.vio model/MoveGen.vio model/Apply.vio model/Search.vio model/Bot.vio proofs/HashFacts.vio proofs/BotFacts.vio
+props/C15.vos props/C15.vok props/C15.required_vos: props/C15.v base/Types.vos model/Board.vos model/MoveGen.vos model/Apply.vos model/Search.vos model/Bot.vos proofs/HashFacts.vos proofs/BotFacts.vos
 props/C16.vo props/C16.glob props/C16.v.beautified props/C16.required_vo: props/C16.v model/Score.vo model/Abi.vo proofs/AbiFacts.vo
 props/C16.vio: props/C16.v model/Score.vio model/Abi.vio proofs/AbiFacts.vio
 props/C16.vos props/C16.vok props/C16.required_vos: props/C16.v model/Score.vos model/Abi.vos proofs/AbiFacts.vos
